@@ -4,7 +4,7 @@
 import Rigo.Block
 open Std
 
-namespace Rigo.C14
+namespace Rigo.C14L
 
 /-- the slashed voting power as the code computes it (uint256 product, uint64 truncations) -/
 def govSlashOf (power ratio : Int) : Int :=
@@ -203,4 +203,4 @@ theorem gov_punish_absent (p : Proposal) (addr : Hex) (ratio : Int)
     (hf : p.voters.find? (·.addr == addr) = none) : p.doPunish addr ratio = (p, 0) := by
   unfold Proposal.doPunish; rw [hf]
 
-end Rigo.C14
+end Rigo.C14L
